@@ -53,13 +53,13 @@ structure Inv (s : St) : Prop where
   created : s.state = .created → s.child = .none
   res : s.result.isSome = true → s.state = .joined
   resOk : s.state = .joined → s.w.isMsa = true →
-    ∃ r, s.result = some r ∧ parseOutput (toolRows s.tool s.n) (badLengths s.tool) s.n = .ok r
+    ∃ r, s.result = some r ∧ parseOutput (toolRows s.tool s.n) (badLengths s.tool s.n) s.n = .ok r
 
 theorem inv_init (w : Wrapper) (t : Tool) (n : Nat) (k : String) : Inv (init w t n k) := by
   constructor <;> simp [init, AppState.terminal]
 
 theorem evaluate_ok_msa (s : St) (r) (h : evaluate s = .ok r) (hm : s.w.isMsa = true) :
-    ∃ p, r = some p ∧ parseOutput (toolRows s.tool s.n) (badLengths s.tool) s.n = .ok p := by
+    ∃ p, r = some p ∧ parseOutput (toolRows s.tool s.n) (badLengths s.tool s.n) s.n = .ok p := by
   unfold evaluate at h
   cases hw : s.w <;> simp [hw, Wrapper.isMsa] at h hm <;>
   · split at h
@@ -240,9 +240,9 @@ theorem methodBody_frame (s : St) (m : String) :
     (methodBody s m).1.cwdChanged = s.cwdChanged ∧ (methodBody s m).1.cleanups = s.cleanups ∧
     (methodBody s m).1.result = s.result ∧ (methodBody s m).1.w = s.w ∧ (methodBody s m).1.tool = s.tool ∧
     (methodBody s m).1.n = s.n ∧ (methodBody s m).1.released = s.released := by
-  unfold methodBody
+  unfold methodBody setterEffect
   repeat' split
-  all_goals simp
+  all_goals (first | simp | (refine ⟨rfl, rfl, rfl, rfl, rfl, rfl, rfl, rfl, rfl, rfl⟩))
 
 theorem inv_methodBody (s : St) (m : String) (h : Inv s) : Inv (methodBody s m).1 := by
   obtain ⟨f1, f2, f3, f4, f5, f6, f7, f8, f9, _⟩ := methodBody_frame s m
@@ -254,6 +254,24 @@ theorem inv_methodBody (s : St) (m : String) (h : Inv s) : Inv (methodBody s m).
   · intro hs; rw [f1] at hs; rw [f2]; exact h4 hs
   · intro hr; rw [f6] at hr; rw [f1]; exact h5 hr
   · intro hs hm; rw [f1] at hs; rw [f7] at hm; rw [f6, f8, f9]; exact h6 hs hm
+
+theorem setGapBody_frame (s : St) (a : Int) (b : Option Int) :
+    (setGapBody s a b).1 = s ∨ ∃ g, (setGapBody s a b).1 = { s with gap := g } := by
+  unfold setGapBody
+  repeat' split
+  all_goals first | (left; rfl) | (right; exact ⟨_, rfl⟩)
+
+theorem inv_setGapBody (s : St) (a : Int) (b : Option Int) (h : Inv s) : Inv (setGapBody s a b).1 := by
+  rcases setGapBody_frame s a b with h' | ⟨g, h'⟩
+  · rw [h']; exact h
+  · rw [h']
+    obtain ⟨h1, h2, h3, h4, h5, h6⟩ := h
+    exact ⟨h1, h2, h3, h4, h5, h6⟩
+
+theorem setGapBody_res (s : St) (a : Int) (b : Option Int) : (setGapBody s a b).2 ≠ .err .stateError := by
+  unfold setGapBody
+  repeat' split
+  all_goals simp
 
 /-- Every call and every environment event preserves the invariant. -/
 theorem step_inv (s : St) (c : Call) (h : Inv s) : Inv (step s c).1 := by
@@ -295,6 +313,18 @@ theorem step_inv (s : St) (c : Call) (h : Inv s) : Inv (step s c).1 := by
       · exact inv_methodBody s m h
       · exact h
     · exact h
+  | methodBad m =>
+    simp only [step]
+    repeat' split
+    all_goals exact h
+  | setGap a b =>
+    simp only [step]
+    split
+    · split
+      · exact inv_setGapBody s a b h
+      · exact h
+    · exact h
+  | chdir => exact h
 
 theorem run_inv (s : St) (cs : List Call) (h : Inv s) : Inv (run s cs) := by
   induction cs generalizing s with
@@ -360,7 +390,7 @@ theorem joinBase_res (s : St) (t : Bool) : (joinBase s t).2 ≠ .err .stateError
   all_goals first | exact joinTail_res _ | simp [errTimeout]
 
 theorem methodBody_res (s : St) (m : String) : (methodBody s m).2 ≠ .err .stateError := by
-  unfold methodBody
+  unfold methodBody getterValue
   repeat' split
   all_goals simp
 
@@ -394,6 +424,17 @@ theorem step_refused_iff (s : St) (c : Call) :
     split
     · split <;> simp_all [methodBody_res]
     · simp_all
+  | methodBad m =>
+    simp only [step, tableAllows, Call.methodName]
+    split
+    · split <;> simp_all
+    · simp_all
+  | setGap a b =>
+    simp only [step, tableAllows, Call.methodName]
+    split
+    · split <;> simp_all [setGapBody_res]
+    · simp_all
+  | chdir => simp [step, tableAllows, Call.methodName]
 
 theorem step_refused_pure (s : St) (c : Call) (h : (step s c).2 = .err .stateError) : (step s c).1 = s := by
   cases c with
@@ -423,6 +464,18 @@ theorem step_refused_pure (s : St) (c : Call) (h : (step s c).2 = .err .stateErr
       · exact absurd h (methodBody_res s m)
       · rename_i hp; simp [*]
     · simp at h
+  | methodBad m =>
+    simp only [step] at h ⊢
+    repeat' split at h
+    all_goals simp_all
+  | setGap a b =>
+    simp only [step] at h ⊢
+    split at h
+    · split at h
+      · exact absurd h (setGapBody_res s a b)
+      · rename_i hp; simp [*]
+    · simp at h
+  | chdir => simp [step] at h
 
 /-! ## Every way a run ends leads to a terminal state -/
 
@@ -587,6 +640,45 @@ theorem env_step (s : St) (c : Call) : env (step s c).1 = env s := by
       · exact env_methodBody s m
       · rfl
     · rfl
+  | methodBad m =>
+    simp only [step]
+    repeat' split
+    all_goals rfl
+  | setGap a b =>
+    simp only [step]
+    split
+    · split
+      · rcases setGapBody_frame s a b with h' | ⟨g, h'⟩ <;> rw [h'] <;> rfl
+      · rfl
+    · rfl
+  | chdir => rfl
+
+/-- A call that is *rejected* — by the state guard or by the validation of its arguments (`ValueError`), or that fails for
+lack of a result — leaves the wrapper exactly as it was: no option is half-updated. -/
+theorem rejected_call_pure (s : St) (c : Call) (e : Err)
+    (hc : (∃ m, c = .method m) ∨ (∃ m, c = .methodBad m) ∨ (∃ a b, c = .setGap a b))
+    (h : (step s c).2 = .err e) : (step s c).1 = s := by
+  rcases hc with ⟨m, rfl⟩ | ⟨m, rfl⟩ | ⟨a, b, rfl⟩
+  · simp only [step] at h ⊢
+    split at h
+    · split at h
+      · unfold methodBody at h ⊢
+        split at h
+        · simp at h
+        · rename_i hset; simp [hset]; split <;> rfl
+      · simp_all
+    · simp at h
+  · simp only [step] at h ⊢
+    repeat' split
+    all_goals rfl
+  · simp only [step] at h ⊢
+    split at h
+    · split at h
+      · unfold setGapBody at h ⊢
+        repeat' split at h
+        all_goals simp_all
+      · simp_all
+    · simp at h
 
 theorem run_frame (s : St) (cs : List Call) : (run s cs).w = s.w ∧ (run s cs).tool = s.tool ∧ (run s cs).n = s.n := by
   have : env (run s cs) = env s := by
